@@ -53,6 +53,26 @@ def r1(ctx, F):
         ctx.missing('C08.R1', COPY)
     # the delivery primitive is the function that stages and renames; `copy_atomic` may have become a thin wrapper around it
     targets = pubs or [COPY]
+    batched = []
+    for path in targets:
+        batched += [(path, x) for x in batched_renames(flow_of(F.body(path)))]
+    if batched:
+        # deliveries are staged into a container and published (renamed) together in a loop over it.  The order in which they
+        # become visible is the order the container ITERATES in: a map / set keyed by path publishes `d/f` before
+        # `d/f.conflict-..` whatever order they were staged in - the winner replaces the loser's file before the loser's copy has
+        # a real name, and a kill in between leaves the loser under staging names only.  A list keeps the staging order; whether
+        # that order is the right one is not decided here.
+        unordered = [(p_, x) for p_, x in batched if not re.match(r'^(std|alloc)::(vec::Vec|collections::VecDeque|collections::vec_deque::VecDeque)', x[2])]
+        multi = [(p_, x) for p_, x in unordered if p_ != COPY]
+        if multi:
+            p_, (rb_, nb_, ty_) = multi[0]
+            ctx.bad('C08.R1', '%s:publication-order' % p_.split('::')[-1],
+                    '%s renames its staged deliveries in a loop over a %s: they become visible in the order of the keys, not in the order they were staged - '
+                    'a conflict publishes the winner over the loser\'s path before the loser\'s conflict-copy exists under a real name (killed in between, the loser survives '
+                    'only under staging names and the next run drops it)' % (p_.split('::')[-1], ty_.split('<')[0].split('::')[-1]), term_loc(F.body(p_), rb_))
+        else:
+            ctx.undecided('C08.R1', 'deliveries are staged into a list and renamed in a loop over it: that the staging order is the safe publication order is not decided')
+        return
     for path in targets:
         _r1_body(ctx, F, F.body(path))
     cb_ = F.body(COPY)
